@@ -540,6 +540,15 @@ func runDef(run *vh.Run, d *jDef, logs []jLog) {
 			// work bounded by the log's size: a generous linear budget per predicate
 			budget := uint64(len(d.Preds)+1)*(8*uint64(len(lg.Data))+1024) + 4096
 			if !panicked && alloc > budget {
+				// TotalAlloc is process-wide: an occasional runtime-internal allocation lands in
+				// the window. What Match itself allocates is allocated on every repetition.
+				for i := 0; i < 4 && alloc > budget; i++ {
+					if again := allocDelta(func() { vh.Guard(func() { real.Match(lg) }) }); again < alloc {
+						alloc = again
+					}
+				}
+			}
+			if !panicked && alloc > budget {
 				run.Violate(vh.Violation{Key: "C17:match-alloc:getOffsetDataValue-length-not-bounded-by-data",
 					What: fmt.Sprintf("Match allocated %d bytes for a log with %d bytes of data (budget %d)", alloc, len(lg.Data), budget), Case: one(l)})
 			}
@@ -1312,10 +1321,10 @@ func main() {
 		runCase(run, w.Case)
 	}
 	forced(run)
-	nd := run.Scale(3000, 60000)
+	nd := run.Scale(3000, 15000)
 	nl := 12
 	if run.Thorough {
-		nl = 40
+		nl = 24
 	}
 	for i := 0; i < nd; i++ {
 		d := genDef(run.RNG)
@@ -1325,7 +1334,7 @@ func main() {
 		}
 		runDef(run, d, logs)
 	}
-	nb := run.Scale(5000, 500000)
+	nb := run.Scale(5000, 100000)
 	for i := 0; i < nb; i++ {
 		b, name := genDecodeInput(run.RNG)
 		run.Dist["decode-input:"+name]++
